@@ -361,6 +361,16 @@ def structtags(draw, depth=1):
             mt = T("fixedstr", size=draw(st.integers(1, 12)))
         elif kind == "nested":
             mt = draw(structtags(depth=depth - 1))
+        elif draw(st.integers(0, 2)) == 0:
+            # BOOL members aliasing bits of a VISIBLE integer member (predefined types: MESSAGE.Flags, AXIS status words)
+            ht = draw(st.sampled_from(["SINT", "INT", "DINT", "USINT", "UINT", "UDINT"]))
+            hs = {"SINT": 1, "USINT": 1, "INT": 2, "UINT": 2, "DINT": 4, "UDINT": 4}[ht]
+            members.append([next(names), T(ht), off])
+            nb = draw(st.integers(1, min(6, hs * 8 - 1)))
+            for pos in draw(st.permutations(range(hs * 8)))[:nb]:
+                bits[next(names)] = [off + pos // 8, pos % 8]
+            off += hs
+            continue
         else:  # packed BOOL members in a hidden host byte
             host = "ZZZZZZZZZZhost%d" % i
             members.append([host, T("SINT"), off])
@@ -391,8 +401,12 @@ def structtag_values(draw, t):
             v[name] = draw(structtag_values(mt))
         else:
             v[name] = draw(values(mt))
-    for name in t["bits"]:
+    for name, (boff, bit) in t["bits"].items():
         v[name] = draw(st.booleans())
+        for mname, mt, moff in t["members"]:
+            if mname in v and mt["k"] in ("SINT", "INT", "DINT", "USINT", "UINT", "UDINT") and moff <= boff < moff + type_size(mt):
+                # a BOOL aliasing a visible integer member: keep the two views of the same bit consistent
+                v[name] = bool(v[mname] >> (8 * (boff - moff) + bit) & 1)
     return v
 
 
